@@ -23,7 +23,10 @@ Set(sq) == {sq[i] : i \in 1..Len(sq)}
 Accepts(s) == Set(C.steps[s].accepts)
 Acceptors(e) == {s \in Steps : e.ty \in Accepts(s) /\ (e.target = "*" \/ e.target = s)}
 
-St0 == [run |-> 0, emitted |-> {}, started |-> {}, mayretry |-> {}, waitgot |-> {}, unh |-> <<>>, bad |-> "ok"]
+\* done: <<step, uid>> whose body finished without failing in this run;  carry: the same from the runs before a
+\* serialise/resume (a resumed run re-executes what was in flight, never what had already completed)
+St0 == [run |-> 0, emitted |-> {}, started |-> {}, mayretry |-> {}, waitgot |-> {}, unh |-> <<>>, bad |-> "ok",
+        done |-> {}, carry |-> {}, resumed |-> FALSE]
 UnhGet(u, k) == IF k \in DOMAIN u THEN u[k] ELSE 0
 UnhInc(u, k) == [x \in (DOMAIN u) \cup {k} |-> IF x = k THEN UnhGet(u, k) + 1 ELSE u[x]]
 
@@ -32,7 +35,7 @@ Orphans(s0, ty, target) == {e \in s0.emitted : e.ty = ty /\ e.target = target /\
                                                /\ ~(\E x \in s0.waitgot : x[2] = e.uid) /\ e.ty # "Ask"}
 
 Apply(s, r) ==
-  LET s0 == IF r.run # s.run THEN [St0 EXCEPT !.run = r.run] ELSE s IN
+  LET s0 == IF r.run # s.run THEN [St0 EXCEPT !.run = r.run, !.carry = s.carry \cup s.done, !.resumed = s.run # 0] ELSE s IN
   CASE r.e = "emit" -> [s0 EXCEPT !.emitted = @ \cup {[uid |-> r.uid, ty |-> r.ty, target |-> r.target]}]
     [] r.e = "step_start" ->
          LET es == {e \in s0.emitted : e.uid = r.uid} IN
@@ -40,10 +43,15 @@ Apply(s, r) ==
                     !.bad = IF r.ty \notin Accepts(r.step) THEN "delivered_to_non_accepting_step"
                             ELSE IF \E e \in es : e.target # "*" /\ e.target # r.step THEN "delivered_to_other_than_addressed_step"
                             \* a plain step (no collect/wait re-runs) sees an event again only as the retry of its own failure
-                            ELSE IF Tr.plain[r.step] /\ <<r.step, r.uid>> \in s0.started /\ <<r.step, r.uid>> \notin s0.mayretry
+                            \* (in a resumed run an in-flight producer is re-executed and emits again what an in-flight consumer
+                            \*  was also given back: judged only through the carry clause below)
+                            ELSE IF ~s0.resumed /\ Tr.plain[r.step] /\ <<r.step, r.uid>> \in s0.started /\ <<r.step, r.uid>> \notin s0.mayretry
                               THEN "delivered_twice"
+                            \* ... unless its producer was itself in flight at the snapshot and emitted it again in this run
+                            ELSE IF Tr.plain[r.step] /\ <<r.step, r.uid>> \in s0.carry /\ es = {} THEN "delivered_again_after_resume"
                             ELSE @]
     [] r.e = "step_end" /\ r.failed -> [s0 EXCEPT !.mayretry = @ \cup {<<r.step, r.uid>>}]
+    [] r.e = "step_end" /\ ~r.failed /\ ~r.cancelled -> [s0 EXCEPT !.done = @ \cup {<<r.step, r.uid>>}]
     [] r.e = "wait_ret" -> [s0 EXCEPT !.waitgot = @ \cup {<<r.step, r.got_uid>>},
                                       !.bad = IF <<r.step, r.got_uid>> \in s0.started THEN "wait_result_also_delivered_as_input" ELSE @]
     [] r.e = "pub" /\ r.p.k = "unhandled" ->
